@@ -35,6 +35,7 @@ class FnSpec:
         self.stub = False
         self.trusted_note = None
         self.attrs = []
+        self.loopghosts = {}
 
 
 class ModSpec:
@@ -143,12 +144,19 @@ def parse_spec(path):
                 raise Undecided("duplicate @fn %s at %s:%d" % (parts[1], path, lineno))
             u.fns[parts[1]] = cur_fn
             section = cur_fn.spec
-        elif s.startswith("%loop") and cur_fn is not None:
+        elif s.startswith("%loop ") and cur_fn is not None:
             m = re.match(r'%loop\s+"(.*)"(?:\s+#(\d+))?\s*$', s)
             if not m:
                 raise Undecided("bad %%loop at %s:%d" % (path, lineno))
             sec = []
             cur_fn.loops.append((m.group(1), sec, int(m.group(2) or 0)))
+            section = sec
+        elif s.startswith("%loopghost") and cur_fn is not None:
+            m = re.match(r'%loopghost\s+"(.*)"\s*$', s)
+            if not m:
+                raise Undecided("bad %%loopghost at %s:%d" % (path, lineno))
+            sec = []
+            cur_fn.loopghosts[m.group(1)] = sec
             section = sec
         elif s.startswith("%r6") and cur_fn is not None:
             n = int(s.split()[1])
@@ -526,6 +534,8 @@ def fn_inserts(u, m, d, it, info, used_fns, probe_fn):
         l = cands[occ]
         first = sec[0][0] if sec else fs.line
         attr_txt = "#[verus_spec(" + spec_lines_to_text(sec).strip() + "\n)]\n"
+        if anchor in fs.loopghosts:
+            attr_txt = "proof_decl! {\n" + spec_lines_to_text(fs.loopghosts[anchor]) + "\n}\n" + attr_txt
         if "r12" in l:
             tag = "/*@L12:%d*/" % l["ord"]
             found = False
